@@ -245,7 +245,7 @@ impl BitVector {
     /// ```
     #[inline(always)]
     pub fn get_bits(&self, pos: usize, len: usize) -> Option<usize> {
-        if WORD_LEN < len || self.len() < pos + len {
+        if WORD_LEN < len || pos.checked_add(len).map_or(true, |end| self.len() < end) {
             return None;
         }
         if len == 0 {
@@ -306,11 +306,11 @@ impl BitVector {
                 "len must be no greater than {WORD_LEN}, but got {len}."
             ));
         }
-        if self.len() < pos + len {
+        if pos.checked_add(len).map_or(true, |end| self.len() < end) {
             return Err(anyhow!(
                 "pos+len must be no greater than self.len()={}, but got {}.",
                 self.len(),
-                pos + len
+                pos.saturating_add(len)
             ));
         }
         if len == 0 {
